@@ -6,10 +6,15 @@ open Util
             then the pipeline goroutines run until nothing is left to do) and must show the same number of sink
             invocations per call and the same EmitSync outcomes as the real code;
    R lines: the recorded event trace of a concurrent run is judged by the extracted monitor chk_C18;
+   W lines: a call in flight inside user code while sinks are registered and Stop is called; judged by chk_C18;
+   B lines: user code blocked / re-entering on a pipeline goroutine while Stop or an expansion arrives; judged by chk_C18,
+            where leaving through the grace period is the EXPECTED verdict of mode h (the harness keeps the sink blocked
+            beyond the grace period) and no other mode; so:<j> (Stop still running after grace + margin) = stop_over_grace;
    L line : two overlapping Stop calls; chk_C18 must accept, the literal reading (chk_literal) does not (F18c). *)
 
 let string_of_lclause = function
   | ClSinkAfterStop -> "sink_after_stop" | ClSinkRunning -> "sink_running_after_stop" | ClSyncAfterStop -> "emitsync_after_stop" | ClStopGrace -> "stop_grace_expired"
+  | ClStopOverGrace -> "stop_over_grace"
   | ClStuck -> "stuck" | ClLeak -> "goroutine_leak" | ClLoserEarly -> "loser_stop_returns_early"
 
 let split_hash (toks : string list) : string list list =
@@ -125,6 +130,7 @@ let parse_event (tok : string) : levent option =
   | ["yb"; j] -> Some (ESyncBegin (nat_of_int (int_of_string j)))
   | ["ye"; j; r] -> Some (ESyncEnd (nat_of_int (int_of_string j), r <> "0"))
   | ["to"] -> Some ETimeout
+  | ["so"; j] -> Some (EStopOver (nat_of_int (int_of_string j)))
   | ["gr"; b; f] -> Some (EGoroutines (nat_of_int (int_of_string b), nat_of_int (int_of_string f)))
   | _ -> None
 
@@ -174,6 +180,19 @@ let handle (toks : string list) : string =
                   then "chk panic_not_isolated model=" ^ String.concat " " model
                   else "diff script model=" ^ String.concat " " model)
        | _ -> "bad line")
+  | "B" :: _ :: _ :: _ :: mode :: "#" :: evs ->
+      let tr = List.filter_map parse_event evs in
+      if List.length tr <> List.length evs then "bad event token" else
+      let has_begin = List.exists (function ESinkBegin _ -> true | _ -> false) tr in
+      let has_ret = List.exists (function EStopReturn _ -> true | _ -> false) tr in
+      (match chk_C18 tr with
+       | Some ClStopGrace when mode = "h" -> if has_begin then "ok nt" else "ok"
+       | Some cl -> "chk " ^ string_of_lclause cl
+       | None ->
+           (* mode h: the sink was still blocked when Stop returned, so a return through the join is impossible: the
+              monitor has then seen the sink end after the barrier (sink_running_after_stop) -- unless no sink began *)
+           if has_begin && has_ret then "ok nt" else "ok")
+  | "W" :: _ :: _ :: _ :: _ :: _ :: _ :: _ :: _ :: "#" :: evs
   | "P" :: _ :: _ :: _ :: _ :: "#" :: evs
   | "R" :: _ :: _ :: _ :: "#" :: evs ->
       let tr = List.filter_map parse_event evs in
